@@ -1884,6 +1884,9 @@ fn worker_main() {
         if let Some(spec) = line.strip_prefix("graph ") {
             return graph_reply(&mut libs, spec);
         }
+        if let Some(kind) = line.strip_prefix("fromcyc ") {
+            return fromcyc_reply(kind);
+        }
         let Some((fmt, h)) = line.split_once(' ') else { return "bad".into() };
         let Some(bytes) = kvh::unhex(h) else { return "bad".into() };
         let Ok(doc) = String::from_utf8(bytes) else { return "bad".into() };
@@ -1954,6 +1957,75 @@ fn graph_reply(libs: &mut Libs, spec: &str) -> String {
     // cyclic Rc graphs are leaked on purpose (dropping them is not what is under test)
     std::mem::forget(nodes);
     out
+}
+
+/// a recursive Rust type whose Koto image is nothing but nested sequences
+#[derive(Serialize, Deserialize, Debug)]
+struct Nest(Vec<Nest>);
+
+/// `fromcyc` request of the worker: `from_koto_value` of a container that contains itself (or a very
+/// deep finite one) into a recursive Rust type / into `DeserializableKValue`. Must be `err`.
+fn fromcyc_reply(kind: &str) -> String {
+    fn report<A>(r: Result<Result<A, koto_serde::Error>, String>) -> String {
+        match r {
+            Ok(Ok(_)) => "ok".into(),
+            Ok(Err(_)) => "err".into(),
+            Err(p) => format!("panic {}", p.replace('\n', " ")),
+        }
+    }
+    let cyclic_list = || {
+        let l = KList::default();
+        l.data_mut().push(KValue::Number(1.into()));
+        l.data_mut().clear();
+        l.data_mut().push(KValue::List(l.clone()));
+        let v = KValue::List(l.clone());
+        std::mem::forget(l);
+        v
+    };
+    match kind {
+        "nest-cyclic-list" => report(kvh::catch(|| from_koto_value::<Nest>(cyclic_list()))),
+        "nest-cyclic-list-in-tuple" => {
+            // t = (l,) with l = [t]
+            let l = KList::default();
+            let t = KValue::Tuple(vec![KValue::List(l.clone())].into());
+            l.data_mut().push(t.clone());
+            std::mem::forget(l);
+            report(kvh::catch(|| from_koto_value::<Nest>(t)))
+        }
+        "tree-cyclic-map" => {
+            // m = {Node: (m,)}
+            let m = KMap::new();
+            m.insert("Node", KValue::Tuple(vec![KValue::Map(m.clone())].into()));
+            let v = KValue::Map(m.clone());
+            std::mem::forget(m);
+            report(kvh::catch(|| from_koto_value::<Tree>(v)))
+        }
+        "chain-cyclic-map" => {
+            // m = {head: 1, tail: m}
+            let m = KMap::new();
+            m.insert("head", 1);
+            m.insert("tail", KValue::Map(m.clone()));
+            let v = KValue::Map(m.clone());
+            std::mem::forget(m);
+            report(kvh::catch(|| from_koto_value::<Chain>(v)))
+        }
+        "dkv-cyclic-list" => report(kvh::catch(|| from_koto_value::<DeserializableKValue>(cyclic_list()))),
+        // finite counterparts: must keep working
+        "nest-finite" => {
+            let mut v = KValue::Tuple(vec![].into());
+            for _ in 0..40 {
+                v = KValue::List(KList::from_slice(&[v, KValue::Tuple(vec![].into())]));
+            }
+            report(kvh::catch(|| from_koto_value::<Nest>(v)))
+        }
+        "nest-shared" => {
+            // the same list three times, no cycle
+            let x = KValue::List(KList::from_slice(&[KValue::Tuple(vec![].into())]));
+            let v = KValue::Tuple(vec![x.clone(), KValue::List(KList::from_slice(&[x.clone()])), x].into());
+            report(kvh::catch(|| from_koto_value::<Nest>(v)))
+        }
+        _ => "bad".into(),
+    }
 }
 
 fn corrupt(r: &mut Rng, doc: &str) -> String {
@@ -2115,6 +2187,26 @@ impl Ctx {
 }
 
 impl Ctx {
+    fn check_fromcyc(&mut self, w: &mut kvh::worker::Worker, kind: &str, want: &str) {
+        let line = format!("fromcyc {}", kind);
+        self.rep.case(&line, true);
+        let detail = |o: &str| json!({"input": line, "outcome": o, "expected": want,
+            "note": "from_koto_value of a self-containing container into a recursive Rust type must be an error, not a native stack overflow"});
+        match w.request(&line, Duration::from_secs(30)) {
+            kvh::worker::Reply::Ok(s) if s == want => self.rep.bump(&format!("fromcyc[{}]={}", kind, s)),
+            kvh::worker::Reply::Ok(s) => self.viol_d("C20:from_koto_value on an aliased value", detail(&s)),
+            kvh::worker::Reply::Timeout => self.viol_d("C20:from_koto_value on a cyclic value does not return", detail("timeout")),
+            kvh::worker::Reply::Died(st) => {
+                if want == "err" && self.open.iter().any(|o| o == "F-C20-7") {
+                    *self.known_counts.entry("F-C20-7".into()).or_insert(0) += 1;
+                    self.rep.bump(&format!("fromcyc[{}]=abort", kind));
+                } else {
+                    self.viol_d("C20:from_koto_value on a cyclic value aborts the process", detail(&format!("worker died: {}", st)));
+                }
+            }
+        }
+    }
+
     fn check_graph(&mut self, w: &mut kvh::worker::Worker, nodes: &[String]) {
         let model_req = format!("graph 0{}", nodes.iter().map(|n| format!(" ({})", n)).collect::<String>());
         let model = self.drv.ask(&model_req);
@@ -2422,6 +2514,11 @@ fn main() {
         // a chain of n distinct lists / maps: the writer's nesting limit on the graph
         let nodes: Vec<String> = (0..n).map(|i| if i + 1 < n { format!("{} r{}", if i % 3 == 2 { "m" } else { "l" }, i + 1) } else { "l n1".to_string() }).collect();
         cx.check_graph(&mut worker, &nodes);
+    }
+    // from_koto_value of a container that contains itself into a recursive Rust type (F-C20-7)
+    for (kind, want) in [("nest-finite", "ok"), ("nest-shared", "ok"), ("nest-cyclic-list", "err"), ("nest-cyclic-list-in-tuple", "err"),
+        ("tree-cyclic-map", "err"), ("chain-cyclic-map", "err"), ("dkv-cyclic-list", "err")] {
+        cx.check_fromcyc(&mut worker, kind, want);
     }
     for g in [vec!["l n1 r0"], vec!["m r0"], vec!["l r1", "m n2 r0"], vec!["l r1 r2 r1", "l n1", "m r1"], vec!["l r1 r1", "l r2 r2", "l r3 r3", "l n7"]] {
         cx.check_graph(&mut worker, &g.iter().map(|x| x.to_string()).collect::<Vec<_>>());
